@@ -69,7 +69,7 @@ func isLenCall(v ssa.Value) (ssa.Value, bool) {
 	}
 	if CalleeName(c) == "bytes.Buffer.Len" {
 		// len(buf.Bytes()) == buf.Len(): the buffer pointer stands for its unread bytes (assumes no buffer mutation in between)
-		return Arg(c, 0), true
+		return ArgRaw(c, 0), true
 	}
 	b, ok := c.Call.Value.(*ssa.Builtin)
 	if !ok || b.Name() != "len" || len(c.Call.Args) != 1 {
@@ -80,7 +80,7 @@ func isLenCall(v ssa.Value) (ssa.Value, bool) {
 
 func bufIdent(v ssa.Value) ssa.Value {
 	if c, ok := v.(*ssa.Call); ok && CalleeName(c) == "bytes.Buffer.Bytes" {
-		return Resolve(Arg(c, 0))
+		return Resolve(ArgRaw(c, 0))
 	}
 	return v
 }
@@ -307,7 +307,7 @@ func (b *Bounds) LenAtLeast(x ssa.Value, at ssa.Instruction, t Term) bool {
 		if ex, ok := stripWiden(t.V).(*ssa.Extract); ok {
 			if c, ok := ex.Tuple.(*ssa.Call); ok {
 				if s, ok := b.Summaries[CalleeName(c)]; ok && s.Ret == ex.Index && b.onNilErrEdge(c, at) {
-					if d, ok := b.lenSlack(Arg(c, s.Param), x); ok && d >= t.K {
+					if d, ok := b.lenSlack(ArgRaw(c, s.Param), x); ok && d >= t.K {
 						return true
 					}
 				}
@@ -318,7 +318,7 @@ func (b *Bounds) LenAtLeast(x ssa.Value, at ssa.Instruction, t Term) bool {
 	if t.V != nil && t.K <= 0 {
 		if ex, ok := stripWiden(t.V).(*ssa.Extract); ok {
 			if c, ok := ex.Tuple.(*ssa.Call); ok {
-				if s, ok := b.Summaries[CalleeName(c)]; ok && s.Ret == ex.Index && b.lenLE(Arg(c, s.Param), x) && b.onNilErrEdge(c, at) {
+				if s, ok := b.Summaries[CalleeName(c)]; ok && s.Ret == ex.Index && b.lenLE(ArgRaw(c, s.Param), x) && b.onNilErrEdge(c, at) {
 					return true
 				}
 			}
@@ -505,7 +505,7 @@ func (b *Bounds) fieldSummary(v ssa.Value, x ssa.Value, at ssa.Instruction) bool
 		if !ok || fs.Field != fl || fs.StructArg >= NArgs(c) {
 			return
 		}
-		if Arg(c, fs.StructArg) != fa.X || !b.lenLE(x, Arg(c, fs.Param)) && !sameSlice(x, Arg(c, fs.Param)) {
+		if ArgRaw(c, fs.StructArg) != fa.X || !b.lenLE(x, ArgRaw(c, fs.Param)) && !sameSlice(x, ArgRaw(c, fs.Param)) {
 			return
 		}
 		if Dominates(c, at) && b.onNilErrEdge(c, at) && sameFieldLoad(v, v) {
@@ -745,7 +745,7 @@ func (b *Bounds) ValueAtLeast(v ssa.Value, k int64, at ssa.Instruction) bool {
 			if s, ok := b.Summaries[CalleeName(c)]; ok && s.Ret == x.Index && k <= 0 && b.onNilErrEdge(c, at) {
 				return true
 			}
-			if ns, ok := NonNegSummaries[CalleeName(c)]; ok && ns.Ret == x.Index && k <= 0 && b.onNilErrEdge(c, at) && b.ValueAtLeast(Arg(c, ns.IfParam), 0, c) {
+			if ns, ok := NonNegSummaries[CalleeName(c)]; ok && ns.Ret == x.Index && k <= 0 && b.onNilErrEdge(c, at) && b.ValueAtLeast(ArgRaw(c, ns.IfParam), 0, c) {
 				return true
 			}
 		}
@@ -888,7 +888,7 @@ func (b *Bounds) ValueAtMost(v ssa.Value, t Term, at ssa.Instruction) bool {
 	case *ssa.Extract:
 		if c, ok := x.Tuple.(*ssa.Call); ok {
 			if s, ok := b.Summaries[CalleeName(c)]; ok && s.Ret == x.Index && t.V != nil && b.onNilErrEdge(c, at) {
-				if lx, ok := isLenCall(stripWiden(t.V)); ok && t.K >= 0 && sameSlice(lx, Arg(c, s.Param)) {
+				if lx, ok := isLenCall(stripWiden(t.V)); ok && t.K >= 0 && sameSlice(lx, ArgRaw(c, s.Param)) {
 					return true
 				}
 			}
@@ -1021,9 +1021,9 @@ func (b *Bounds) Obligations() []BoundObl {
 			}
 			if need > 0 && strings.HasPrefix(n, "encoding/binary.") {
 				o := BoundObl{Instr: in, Kind: "call-needs-len", Desc: fmt.Sprintf("%s needs %d bytes", shortName(n), need)}
-				o.OK = b.LenAtLeast(Arg(x, 1), in, Term{nil, need})
+				o.OK = b.LenAtLeast(ArgRaw(x, 1), in, Term{nil, need})
 				if !o.OK {
-					o.Why = fmt.Sprintf("no fact len(%s) ≥ %d holds on every path to the call", Arg(x, 1).Name(), need)
+					o.Why = fmt.Sprintf("no fact len(%s) ≥ %d holds on every path to the call", ArgRaw(x, 1).Name(), need)
 				}
 				out = append(out, o)
 			}
